@@ -82,7 +82,7 @@ def get_replayer(): return replayer(maps_build())
 def main(tier):
     chk = Check('C04', tier, '4/C04')
     bld = maps_build()
-    cfgs = [(16, 6.0), (16, 6.5)] if tier == 'quick' else [(16, 6.0), (16, 6.5), (17, 6.0), (20, 7.3)]
+    cfgs = [(16, 6.0), (16, 6.5)] if tier == 'quick' else [(16, 6.0), (16, 6.5), (17, 6.0), (20, 7.3), (24, 5.2), (33, 6.5), (40, 8.0), (64, 6.5)]
     jobs = [(job_moments, (n, ft, dt, pm)) for n, pm in cfgs for ft in (0, 1, 2, 3) for dt in (3, 4)] + [(job_consequences, ())]
     # transport side: kick and drift reproduce polynomials of degree <= 2 (so they transport second moments exactly) for >= 3 interpolation points
     import c02
